@@ -272,6 +272,9 @@ func repr(fm *Frame, args ...any) error {
 }
 
 func show(fm *Frame, v diag.Shower) error {
+	if v == nil {
+		return errNilArg("argument of show", "exception or error")
+	}
 	out := fm.ByteOutput()
 	_, err := out.WriteString(v.Show(""))
 	if err != nil {
